@@ -376,11 +376,36 @@ class Interp:
             s = self.get(values, ins[2]).flatten()
             return [x[tuple(slice(int(bb), int(bb) + int(ss)) for bb, ss in zip(b, s))]]
         if code == "STRIDED_SLICE":
-            if any(opts.get(k) for k in ("BeginMask", "EndMask", "EllipsisMask", "NewAxisMask", "ShrinkAxisMask")):
-                raise Unsupported("STRIDED_SLICE masks")
             x = self.get(values, ins[0])
             b, e, st = (self.get(values, ins[k]).flatten() for k in (1, 2, 3))
-            return [x[tuple(slice(int(bb), int(ee), int(ss)) for bb, ee, ss in zip(b, e, st))]]
+            if opts.get("EllipsisMask") or opts.get("Offset") or any(int(v) != 1 for v in st):
+                raise Unsupported("STRIDED_SLICE with ellipsis / offset / strides")
+            bm, em, nam, sam = (int(opts.get(k) or 0) for k in ("BeginMask", "EndMask", "NewAxisMask", "ShrinkAxisMask"))
+            # strided_slice_logic.h (positive strides): negative indices count from the end, start is clamped to [0, dim-1], stop to [0, dim]; masked entries take the
+            # full range; a shrunk axis takes the single element at start; a new axis consumes a spec entry but no input dimension
+            idx = []
+            dim = 0
+            for i in range(len(b)):
+                if (nam >> i) & 1:
+                    idx.append(np.newaxis)
+                    continue
+                if dim >= x.ndim:
+                    raise Unsupported("STRIDED_SLICE spec longer than the input rank")
+                n = x.shape[dim]
+                lo_, hi_ = int(b[i]), int(e[i])
+                lo_ = lo_ + n if lo_ < 0 else lo_
+                hi_ = hi_ + n if hi_ < 0 else hi_
+                if (sam >> i) & 1:
+                    idx.append(int(np.clip(lo_, 0, n - 1)))
+                else:
+                    lo_ = 0 if (bm >> i) & 1 else int(np.clip(lo_, 0, n - 1))
+                    hi_ = n if (em >> i) & 1 else int(np.clip(hi_, 0, n))
+                    idx.append(slice(lo_, hi_))
+                dim += 1
+            r = x[tuple(idx)]
+            if list(r.shape) != list(ot["shape"]):
+                raise Unsupported("STRIDED_SLICE output shape %s differs from the declared %s" % (list(r.shape), ot["shape"]))
+            return [r]
         if code == "ARG_MAX":
             x = self.get(values, ins[0])
             axis = int(self.get(values, ins[1]).flatten()[0]) % x.ndim
